@@ -233,8 +233,22 @@ def _request_case(case, out):
             if cfg.id is None:
                 cfg.id = b"\x02" * 20
             req = WARegRequest(prof, "123456")
+        # parameters the caller adds itself (as the cli does for e.g. a sim operator): they travel exactly as given
+        extra = []
+        for n, v in case.get("extra", []):
+            val = v[1] if v[0] == "s" else bytes.fromhex(v[1]) if v[0] == "b" else int(v[1])
+            req.addParam("x_" + n, val)
+            extra.append(("x_" + n, val))
+        if extra:
+            out.label("caller_added_parameters")
         names = [n for n, v in req.params]
         d = dict(req.params)
+        for n, val in extra:
+            if n not in d or d[n] != val or type(d[n]) is not type(val):
+                out.fail("request", "request:added_parameter_altered", {"name": n, "given": repr(val)[:80], "held": repr(d.get(n))[:80]})
+                break
+        if which in (1, 2) and d.get("id") is not None and bytes(d["id"] if isinstance(d["id"], (bytes, bytearray)) else str(d["id"]).encode("latin-1")) != bytes(cfg.id):
+            out.fail("request", "request:account_id_differs_from_configuration", {"configured": bytes(cfg.id).hex(), "held": repr(d.get("id"))[:80]})
         if d.get("cc") != cc or d.get("in") != local:
             out.fail("request", "request:number_split", {"cc": d.get("cc"), "in": d.get("in"), "phone": phone})
         if which in (0, 1):
@@ -376,11 +390,20 @@ def plan(tier):
     params = st.builds(lambda ps, r: {"sub": "params", "params": [[n, v] for n, v in ps], "recipient": r.hex()},
                        st.lists(st.tuples(_name, _value), min_size=0, max_size=12),
                        st.binary(min_size=32, max_size=32))
-    request = st.builds(lambda cc, local, mcc, mnc, which, idb, plain: {"sub": "request", "cc": cc, "local": local, "mcc": mcc,
-                                                                       "mnc": mnc, "which": which, "id": idb, "also_plain": plain},
+    _edge = st.builds(lambda a, core, b: a + core + b, st.sampled_from(["", " ", "\t", "\n", "\r", "\x0b", "\x0c"]),
+                      st.binary(min_size=0, max_size=18).map(lambda x: x.decode("latin-1")), st.sampled_from(["", " ", "\t", "\n", "\r"]))
+    idb_st = st.one_of(st.none(), st.binary(min_size=20, max_size=20).map(lambda b: b.hex()),
+                       _edge.map(lambda s: (s.encode("latin-1") + b"\x00" * 20)[:19].hex() + "20"),
+                       _edge.map(lambda s: "09" + (s.encode("latin-1") + b"\x01" * 20)[:19].hex()))
+    extra_st = st.lists(st.tuples(st.text(alphabet="abcdefgh", min_size=1, max_size=5),
+                                  st.one_of(_value, _edge.map(lambda s: ["s", s]), _edge.map(lambda s: ["b", s.encode("latin-1").hex()]))).map(list),
+                        min_size=0, max_size=3, unique_by=lambda t: t[0])
+    request = st.builds(lambda cc, local, mcc, mnc, which, idb, plain, extra: {"sub": "request", "cc": cc, "local": local, "mcc": mcc,
+                                                                              "mnc": mnc, "which": which, "id": idb, "also_plain": plain,
+                                                                              "extra": extra},
                         st.text(alphabet="123456789", min_size=1, max_size=3), st.text(alphabet="0123456789", min_size=4, max_size=12),
                         st.text(alphabet="0123456789", min_size=1, max_size=3), st.text(alphabet="0123456789", min_size=1, max_size=3),
-                        st.integers(0, 2), st.one_of(st.none(), st.binary(min_size=20, max_size=20).map(lambda b: b.hex())), st.booleans())
+                        st.integers(0, 2), idb_st, st.booleans(), extra_st)
     return {
         "shards": 16,
         "enumerations": [],
